@@ -64,7 +64,7 @@ func firstReturn(body []ast.Stmt) []string {
 	return nil
 }
 
-func lastIdent(s string) string {
+func batLastIdent(s string) string {
 	if i := strings.LastIndex(s, "."); i >= 0 {
 		return s[i+1:]
 	}
@@ -171,7 +171,7 @@ func genBatchFacts() {
 				okShape = false
 			}
 			for _, e := range c.List {
-				tapVers = append(tapVers, intConst(acct, "account", lastIdent(exprString(e))))
+				tapVers = append(tapVers, intConst(acct, "account", batLastIdent(exprString(e))))
 			}
 		}
 		if !okShape {
@@ -192,13 +192,13 @@ func genBatchFacts() {
 				fail("ScriptVersion: case without single return")
 				continue
 			}
-			sv := intConst(ps, "poolscript", lastIdent(ret[0]))
+			sv := intConst(ps, "poolscript", batLastIdent(ret[0]))
 			if len(c.List) == 0 {
 				def = sv
 				continue
 			}
 			for _, e := range c.List {
-				rows = append(rows, fmt.Sprintf("(%s, %s)", intConst(acct, "account", lastIdent(exprString(e))), sv))
+				rows = append(rows, fmt.Sprintf("(%s, %s)", intConst(acct, "account", batLastIdent(exprString(e))), sv))
 			}
 		}
 		l.p("def scriptVersionTable : List (Nat × Nat) := [%s]", strings.Join(rows, ", "))
@@ -223,7 +223,7 @@ func genBatchFacts() {
 				fail("ValidateVersion: listed case no longer returns nil")
 			}
 			for _, e := range c.List {
-				vs = append(vs, intConst(acct, "account", lastIdent(exprString(e))))
+				vs = append(vs, intConst(acct, "account", batLastIdent(exprString(e))))
 			}
 		}
 		l.p("def validAccountVersions : List Nat := [%s]", strings.Join(vs, ", "))
@@ -254,7 +254,7 @@ func genBatchFacts() {
 						fail("validateEndingState: unexpected state condition %q", cond)
 						return true
 					}
-					vals = append(vals, intConst(rpc, "auctioneerrpc", lastIdent(strings.TrimPrefix(p, "state != "))))
+					vals = append(vals, intConst(rpc, "auctioneerrpc", batLastIdent(strings.TrimPrefix(p, "state != "))))
 				}
 				if len(vals) > 1 {
 					dust = vals
@@ -284,7 +284,7 @@ func genBatchFacts() {
 				fail("DetermineCommitmentType: case without (type, bool) return")
 				continue
 			}
-			name := strings.TrimPrefix(lastIdent(ret[0]), "CommitmentType_")
+			name := strings.TrimPrefix(batLastIdent(ret[0]), "CommitmentType_")
 			if len(c.List) == 0 {
 				def = name
 				continue
@@ -325,7 +325,7 @@ func genBatchFacts() {
 		for _, c := range switchCases(fd, "commitmentType") {
 			body := ""
 			for _, s := range c.Body {
-				body += stmtString(s)
+				body += batStmtString(s)
 			}
 			isTap := strings.Contains(body, "GenTaprootFundingScript")
 			isWsh := strings.Contains(body, "GenFundingPkScript")
@@ -340,7 +340,7 @@ func genBatchFacts() {
 				fail("FundingOutput: non-default case is not the taproot branch")
 			}
 			for _, e := range c.List {
-				tap = append(tap, fmt.Sprintf("%q", strings.TrimPrefix(lastIdent(exprString(e)), "CommitmentType_")))
+				tap = append(tap, fmt.Sprintf("%q", strings.TrimPrefix(batLastIdent(exprString(e)), "CommitmentType_")))
 			}
 		}
 		if nDefault != 1 {
@@ -372,7 +372,7 @@ func genBatchFacts() {
 			}
 			v := intConst(order, "order", strings.TrimPrefix(as, "kit.ChannelType = "))
 			for _, e := range c.List {
-				rows = append(rows, fmt.Sprintf("(%s, %s)", intConst(rpc, "auctioneerrpc", lastIdent(exprString(e))), v))
+				rows = append(rows, fmt.Sprintf("(%s, %s)", intConst(rpc, "auctioneerrpc", batLastIdent(exprString(e))), v))
 			}
 		}
 		l.p("def rpcChanTypeTable : List (Int × Nat) := [%s]", strings.Join(rows, ", "))
@@ -381,11 +381,11 @@ func genBatchFacts() {
 	l.p("end Pool.Gen")
 }
 
-func stmtString(s ast.Stmt) string {
+func batStmtString(s ast.Stmt) string {
 	var sb strings.Builder
 	_ = printer.Fprint(&sb, fset, s)
 	return sb.String()
 }
 
 // exprStmt prints an assignment / expression statement on one line.
-func exprStmt(s ast.Stmt) string { return stmtString(s) }
+func exprStmt(s ast.Stmt) string { return batStmtString(s) }
